@@ -385,15 +385,20 @@ Definition BarrierChoiceT := (nat * nat * bool)%type.
 Definition choice_of (t : BarrierChoiceT) : choice :=
   let '(i, r, b) := t in (i, r, if b then KTimeout else KStep).
 
+(* what can still happen in the final state, per instance: ranks whose normal step is enabled, ranks whose timeout
+   is enabled (a run that ended blocked: [no normal step; the ranks parked at a store.wait]) *)
+Definition obs_final (s : gstate) (i : nat) : val :=
+  VL [VL (map vnat (enabled_ranks s i KStep)); VL (map vnat (enabled_ranks s i KTimeout))].
+
 (* input: history (prefix id, world size, io-failing ranks, metadata write fails, absent ranks) and a schedule;
    output: per step [operation; ranks of that instance whose normal step is enabled before the step; ranks of that
    instance whose timeout is enabled before the step], then per instance
    [outcomes per rank (0 Done / 1 Raised / 2 unfinished / 3 absent); metadata written; io done per rank;
-    timed out per rank] *)
+    timed out per rank], then per instance what is enabled in the final state *)
 Definition obs_barrier (x : list BarrierSpecT * list BarrierChoiceT) : val :=
   let s0 := ginit [] (map spec_of (fst x)) in
   let '(steps, sf) := obs_steps s0 (map choice_of (snd x)) in
-  VL [VL steps; VL (map obs_inst (g_insts sf))].
+  VL [VL steps; VL (map obs_inst (g_insts sf)); VL (map (obs_final sf) (seq 0 (length (g_insts sf))))].
 
 (* ------------------------------------------------------------------ executable readings of a job state
    (used by the vm_compute witnesses and examples in props/C13.v) *)
